@@ -10,7 +10,6 @@ import (
 	"github.com/projecteru2/core/store"
 	"github.com/projecteru2/core/types"
 
-	"github.com/alphadose/haxmap"
 	"github.com/google/uuid"
 )
 
@@ -20,7 +19,8 @@ const interval = 15 * time.Second
 type Helium struct {
 	sync.Once
 	store     store.Store
-	subs      *haxmap.Map[uint32, entry]
+	subsMux   sync.Mutex
+	subs      map[uint32]entry
 	interval  time.Duration
 	unsubChan chan uint32
 }
@@ -36,7 +36,7 @@ func New(ctx context.Context, config types.GRPCConfig, store store.Store) *Heliu
 	h := &Helium{
 		interval:  config.ServiceDiscoveryPushInterval,
 		store:     store,
-		subs:      haxmap.New[uint32, entry](),
+		subs:      map[uint32]entry{},
 		unsubChan: make(chan uint32),
 	}
 	if h.interval < time.Second {
@@ -54,11 +54,13 @@ func (h *Helium) Subscribe(ctx context.Context) (uuid.UUID, <-chan types.Service
 	key := ID.ID()
 	subCtx, cancel := context.WithCancel(ctx)
 	ch := make(chan types.ServiceStatus)
-	h.subs.Set(key, entry{
+	h.subsMux.Lock()
+	h.subs[key] = entry{
 		ch:     ch,
 		ctx:    subCtx,
 		cancel: cancel,
-	})
+	}
+	h.subsMux.Unlock()
 	return ID, ch
 }
 
@@ -95,9 +97,12 @@ func (h *Helium) start(ctx context.Context) {
 				}
 
 			case ID := <-h.unsubChan:
-				if entry, ok := h.subs.Get(ID); ok {
+				h.subsMux.Lock()
+				entry, ok := h.subs[ID]
+				delete(h.subs, ID)
+				h.subsMux.Unlock()
+				if ok {
 					entry.cancel()
-					h.subs.Del(ID)
 					close(entry.ch)
 				}
 
@@ -127,8 +132,15 @@ func (h *Helium) dispatch(ctx context.Context, status types.ServiceStatus) {
 			return
 		}
 	}
-	h.subs.ForEach(func(k uint32, v entry) bool {
+	// a plain map: iterating the lock-free map this used to be misses entries that were
+	// added after all earlier ones had been deleted, so new subscribers never got anything
+	h.subsMux.Lock()
+	subs := make(map[uint32]entry, len(h.subs))
+	for k, v := range h.subs {
+		subs[k] = v
+	}
+	h.subsMux.Unlock()
+	for k, v := range subs {
 		f(k, v)
-		return true
-	})
+	}
 }
